@@ -384,6 +384,230 @@ def text_mode_oracle(ctx, rng, n):
                      case={"data": data, "read_chunks": ro, "universal": universal}, expected=exp, observed=lines)
 
 
+
+# ---------------------------------------------------------------- channel files --
+class _StubTransport:
+    """Stands in for Transport under a real Channel: records what reaches _send_user_message."""
+
+    def __init__(self):
+        from paramiko.common import DEFAULT_WINDOW_SIZE, DEFAULT_MAX_PACKET_SIZE
+        self.default_window_size = DEFAULT_WINDOW_SIZE
+        self.default_max_packet_size = DEFAULT_MAX_PACKET_SIZE
+        self.sent = []
+        self.server_object = None
+        self.active = True
+
+    def get_log_channel(self):
+        return "paramiko.verif.c42"
+
+    def _sanitize_window_size(self, w):
+        from paramiko.transport import Transport
+        return Transport._sanitize_window_size(self, w)
+
+    def _sanitize_packet_size(self, p):
+        from paramiko.transport import Transport
+        return Transport._sanitize_packet_size(self, p)
+
+    def _send_user_message(self, m):
+        self.sent.append(m.asbytes())
+
+    def _unlink_channel(self, chanid):
+        pass
+
+    def get_exception(self):
+        return None
+
+    def is_active(self):
+        return True
+
+
+def _wire(sent):
+    """peer-visible events in wire order: ('data', bytes) | ('ext', code, bytes) | ('eof',) | ('close',) | ('other', t)"""
+    import struct
+    ev = []
+    for raw in sent:
+        t = raw[0]
+        if t == 94:
+            n = struct.unpack(">I", raw[5:9])[0]
+            ev.append(("data", raw[9:9 + n]))
+        elif t == 95:
+            code, n = struct.unpack(">II", raw[5:13])
+            ev.append(("ext", code, raw[13:13 + n]))
+        elif t == 96:
+            ev.append(("eof",))
+        elif t == 97:
+            ev.append(("close",))
+        else:
+            ev.append(("other", t))
+    return ev
+
+
+def channel_file_case(ctx, case):
+    """makefile / makefile_stdin / makefile_stderr over a REAL Channel (stub transport): what the peer sees.
+    case = (maker, bufsize, pieces, finish, max_packet)"""
+    import logging
+    import common
+    from paramiko.channel import Channel
+    from paramiko.message import Message
+    maker, bufsize, pieces, finish, max_packet = case
+    lg = logging.getLogger("paramiko.verif.c42")
+    if not lg.handlers:
+        lg.addHandler(logging.NullHandler())
+    lg.propagate = False
+    st = _StubTransport()
+    ch = Channel(1)
+    ch._set_transport(st)
+    ch._set_window(1 << 21, 1 << 15)
+    ch._set_remote_channel(2, 1 << 24, max_packet)
+    desc = {"maker": maker, "bufsize": bufsize, "pieces": list(pieces), "finish": finish, "max_packet": max_packet}
+
+    def body():
+        f = getattr(ch, maker)("wb", bufsize)
+        errs = []
+        for p_ in pieces:
+            f.write(p_)
+        if finish == "flush":
+            f.flush()
+            pend = f._wbuffer.getvalue()
+            snap = list(st.sent)    # what the peer saw after flush (the object's __del__ closes it later)
+            return errs, pend, snap
+        if finish == "flush+close":
+            f.flush()
+        try:
+            f.close()
+        except Exception as e:      # noqa
+            errs.append(e)
+            f._closed = True
+        return errs, f._wbuffer.getvalue(), list(st.sent)
+
+    status, val = common.with_watchdog(body, 5.0)
+    if status != "ok":
+        ctx.fail("channel-file-hang" if status == "hang" else "channel-file-raises",
+                 "write/flush/close on a channel file %s" % ("blocks" if status == "hang" else "raises %r" % (val,)),
+                 case=desc)
+        return
+    errs, pending, snap = val
+    written = b"".join(pieces)
+    ev = _wire(snap)
+    if maker == "makefile_stderr":
+        got = b"".join(e[2] for e in ev if e[0] == "ext" and e[1] == 1)
+        wrong = [e for e in ev if e[0] == "data"]
+    else:
+        got = b"".join(e[1] for e in ev if e[0] == "data")
+        wrong = [e for e in ev if e[0] == "ext"]
+    if errs:
+        ctx.fail("channel-file-close-raises", "close() of a channel file with pending buffered data raises",
+                 case=desc, expected="no exception", observed=repr(errs[0]))
+    if got != written or wrong or pending:
+        ctx.fail("channel-file-write-complete",
+                 "bytes seen by the peer after flush/close differ from the data written (lost, reordered or on "
+                 "the wrong stream)", case=desc, expected=written, observed={"peer": got, "left_in_buffer": pending})
+    kinds = [e[0] for e in ev]
+    if "eof" in kinds:
+        i = kinds.index("eof")
+        if any(k in ("data", "ext") for k in kinds[i + 1:]):
+            ctx.fail("channel-file-eof-before-data", "EOF reaches the peer before the last buffered data",
+                     case=desc, observed=kinds)
+    if maker == "makefile_stdin" and finish != "flush":
+        if kinds.count("eof") != 1:
+            ctx.fail("stdin-file-close-eof", "closing a stdin file must send exactly one EOF (after the data)",
+                     case=desc, observed=kinds)
+    elif "eof" in kinds or "close" in kinds:
+        ctx.fail("channel-file-unexpected-eof", "flush/close of a plain channel file sent EOF/CLOSE", case=desc,
+                 observed=kinds)
+    for e in ev:
+        if e[0] in ("data", "ext") and len(e[-1]) > ch.out_max_packet_size:
+            ctx.fail("channel-file-packet-size", "a data message exceeds the peer's maximum packet size",
+                     case=desc, observed=len(e[-1]))
+
+
+def channel_read_case(ctx, rng):
+    """makefile('rb') / makefile_stderr('rb') reading what a REAL Channel received in arbitrary message sizes"""
+    import common
+    from paramiko.channel import Channel
+    from paramiko.message import Message
+    st = _StubTransport()
+    ch = Channel(1)
+    ch._set_transport(st)
+    ch._set_window(1 << 21, 1 << 15)
+    ch._set_remote_channel(2, 1 << 24, 1 << 15)
+    stderr = rng.random() < 0.5
+    data = bytes(rng.choice(b"xy\n\n") for _ in range(rng.randrange(0, 60)))
+    other = bytes(rng.choice(b"QR\n") for _ in range(rng.randrange(0, 20)))
+    i = 0
+    j = 0
+    while i < len(data) or j < len(other):
+        if j < len(other) and (i >= len(data) or rng.random() < 0.3):
+            k = rng.randrange(1, 6)
+            tgt, chunk = (not stderr), other[j:j + k]
+            j += k
+        else:
+            k = rng.randrange(1, 6)
+            tgt, chunk = stderr, data[i:i + k]
+            i += k
+        m = Message()
+        if tgt:
+            m.add_int(1)
+            m.add_string(chunk)
+            m.rewind()
+            ch._feed_extended(m)
+        else:
+            m.add_string(chunk)
+            m.rewind()
+            ch._feed(m)
+    ch._handle_eof(None)
+    bufsize = rng.choice([-1, 0, 1, 2, 5, 64])
+    f = (ch.makefile_stderr if stderr else ch.makefile)("rb", bufsize)
+    ops = gen_ops(rng, True, False, rng.randrange(1, 8)) + [("OReadAll",)]
+    desc = {"stderr": stderr, "data": data, "other_stream": other, "bufsize": bufsize, "ops": [list(o) for o in ops]}
+
+    def body():
+        got = b""
+        for o in ops:
+            if o[0] in ("OWrite", "OFlush", "OClose"):
+                continue
+            r = apply_op(f, o)
+            if r[0] == "bytes":
+                got += r[1]
+            elif r[0] == "lines":
+                got += b"".join(r[1])
+        f._closed = True
+        return got
+
+    status, got = common.with_watchdog(body, 5.0)
+    ctx.count(("chan-read", stderr, data, other, bufsize, repr(ops)), nontrivial=len(data) > 0,
+              kind="channel-stderr-read" if stderr else "channel-read")
+    if status != "ok":
+        ctx.fail("channel-file-read-hang", "reading a channel file to EOF %s" % status, case=desc,
+                 observed=repr(got))
+    elif got != data:
+        ctx.fail("channel-file-read-stream", "bytes read through makefile%s differ from the bytes received on "
+                 "that stream" % ("_stderr" if stderr else ""), case=desc, expected=data, observed=got)
+
+
+def channel_files_oracle(ctx, rng, n):
+    makers = ["makefile", "makefile_stdin", "makefile_stderr"]
+    fixed = []
+    for mk in makers:                       # pending data at close, every buffering class
+        for bs in (-1, 0, 1, 2, 64, 8192, 65536):
+            fixed.append((mk, bs, [b"abc\ndef"], "close", 32768))
+            fixed.append((mk, bs, [b"line1\n", b"tail-without-newline"], "close", 32768))
+    cases = fixed
+    for _ in range(n):
+        pieces = [bytes(rng.choice(b"ab\n\nc") for _ in range(rng.choice([0, 1, 3, 9, rng.randrange(0, 40)])))
+                  for _ in range(rng.randrange(0, 6))]
+        if rng.random() < 0.1:
+            pieces.append(bytes(rng.choice(b"ab\n") for _ in range(rng.choice([8191, 8192, 9000, 40000]))))
+        cases.append((rng.choice(makers), rng.choice(BUFSIZES), pieces,
+                      rng.choice(["close", "close", "close", "flush+close", "flush"]),
+                      rng.choice([1, 4096, 5000, 32768, 1 << 20])))
+    for c in cases:
+        ctx.count(("chanfile", c), nontrivial=sum(len(p_) for p_ in c[2]) > 0, kind="channel-" + c[0])
+        channel_file_case(ctx, c)
+    for _ in range(n):
+        channel_read_case(ctx, rng)
+
+
 def run(ctx):
     rng = ctx.rng
     scale = 8 if ctx.thorough else 1
@@ -428,11 +652,20 @@ def run(ctx):
     ctx.sample({"case": cases[1][0], "impl": cases[1][1]})
 
     text_mode_oracle(ctx, rng, 150 * scale)
+    channel_files_oracle(ctx, rng, 120 * scale)
 
 
 def replay(ctx, rep):
     case = rep["case"]
-    if "ops" not in case:
+
+    def unhex0(v):
+        return bytes.fromhex(v["hex"]) if isinstance(v, dict) else v
+    if isinstance(case, dict) and "maker" in case:
+        c = (case["maker"], case["bufsize"], [unhex0(x) for x in case["pieces"]], case["finish"], case["max_packet"])
+        ctx.count(("replay", c))
+        ctx.count(("replay2", c))
+        return channel_file_case(ctx, c)
+    if "ops" not in case or "mode" not in case:
         return run(ctx)
 
     def unhex(v):
